@@ -212,7 +212,8 @@ impl<T: Qcow2IoOps> Qcow2Dev<T> {
                 let cls = HostCluster(host_cluster);
                 let slice_idx = cls.rb_slice_index(info);
 
-                refblock.decrement(slice_idx).unwrap();
+                // a refcount that is already 0 means the image is corrupt
+                refblock.decrement(slice_idx)?;
                 if first_zero && refblock.get(slice_idx).is_zero() {
                     self.free_cluster_offset
                         .fetch_min(host_cluster, Ordering::Relaxed);
